@@ -19,7 +19,6 @@ structure Hyp (d0 : Design) : Prop where
   ids : IdsUnique d0
   uniq : Unique d0
   acyc : Acyclic d0
-  named : Named d0
 
 def unmoved (d0 : Design) (mv : List Nat) (x : Nat) : List Inst :=
   (d0.defs x).children.filter (fun c => !(mv.contains c.id))
